@@ -1,13 +1,21 @@
+"""C12 — bitset = set of indices. Kani harnesses per capacity for the operations; mirsym engine for the 0/1 rendering."""
+import os, sys, json, time, subprocess
+VERIF = os.path.dirname(os.path.dirname(os.path.dirname(os.path.abspath(__file__))))
+sys.path.insert(0, VERIF)
+from vp import kani as _k
 from vp.kani import Ob
+BUILD = os.path.join(_k.BUILD, "C12")
 
 META = {
     "functions_encoded": ["rlib_bitset::Bitset::{new,from_u64,set,remove,flip,test,clear,iter_bits,count,default,clone,eq}",
-                          "BitAnd/BitOr/BitXor for &Bitset, BitAndAssign/BitOrAssign/BitXorAssign, Not", "BitsIter::{new,next}"],
-    "bounds": {"quick": "N in {1,2,3} words; all word contents; all operation indices; all observer indices (whole-iterator run: N<=2)",
-               "thorough": "adds the whole-iterator run at N=3"},
-    "outside_claim": ["N > 3", "Display/Debug 0/1 string rendering (64N to_string calls through core::fmt are not encoded)",
+                          "BitAnd/BitOr/BitXor for &Bitset, BitAndAssign/BitOrAssign/BitXorAssign, Not", "BitsIter::{new,next}",
+                          "MIR of <Bitset<N> as Display>::fmt, <Bitset<N> as Debug>::fmt, their closures and Bitset::test (rendering engine)"],
+    "bounds": {"quick": "N in {1,2,3} words; all word contents; all operation indices; all observer indices (whole-iterator run: N<=2); rendering: N in {1,2,3}, all word contents, every character position",
+               "thorough": "adds the whole-iterator run at N=3 and the rendering at N=4"},
+    "outside_claim": ["N > 3 (rendering: N > 4)", "the inside of core::fmt / alloc: in the rendering engine Range::map, collect, <int as ToString>::to_string, [String]::join, the format-argument plumbing and Formatter::write_fmt are models with their documented meaning (a Kani harness through the real core::fmt did not leave symbolic execution in 900 s at N=1); a rendering written with another formatting spec or iterator adaptor is reported inconclusive",
                       "histories longer than builder + 1 operation are covered by induction over the state (arbitrary words), not replayed"],
-    "stubs_and_assumes": ["state builder uses from_u64 + set at concrete indices; its postcondition test(i)==bit i is asserted first"],
+    "stubs_and_assumes": ["state builder uses from_u64 + set at concrete indices; its postcondition test(i)==bit i is asserted first",
+                          "rendering engine: std models listed under outside_claim; the bitset state is the array of N symbolic words"],
     "assumptions": ["Kani/CBMC translation of MIR is faithful"],
 }
 
@@ -24,3 +32,75 @@ def obligations(tier, seed):
             add("c12_iterwhole_n%d" % n, covers=1, timeout=1500, desc="whole iterator run, popcount<=4: every set bit once, ascending, then None forever", bounds="N=%d, popcount<=4" % n)
     add("c12_twin_false", expect="fail", desc="deliberately false twin")
     return obs
+
+
+def build_tools():
+    os.makedirs(BUILD, exist_ok=True)
+    env = dict(os.environ); env["CARGO_NET_OFFLINE"] = "true"
+    p = subprocess.run(["cargo", "build", "--offline", "--target-dir", os.path.join(BUILD, "bitsetreplay")], cwd=_k.crate_dir("bitsetreplay"), env=env,
+                       stdout=subprocess.PIPE, stderr=subprocess.STDOUT, text=True)
+    if p.returncode != 0:
+        raise RuntimeError("bitsetreplay build failed: " + p.stdout[-400:])
+
+
+def native(N, words):
+    exe = os.path.join(BUILD, "bitsetreplay", "debug", "vh_bitsetreplay")
+    p = subprocess.run([exe, str(N)] + ["%x" % w for w in words], stdout=subprocess.PIPE, stderr=subprocess.PIPE, text=True, timeout=60)
+    return dict(l.split("=", 1) for l in p.stdout.strip().splitlines() if "=" in l), p.returncode
+
+
+def truth(N, words):
+    return "".join("1" if (words[i // 64] >> (i % 64)) & 1 else "0" for i in range(64 * N))
+
+
+def run_engine(tier, seed, known, only):
+    from mirsym import core
+    from mirsym.bitset_check import BitsetProgram, check_render
+    out = {"records": [], "violations": [], "known": [], "inconclusive": []}
+    try:
+        build_tools()
+        txt = core.dump_mir(_k.REPO, "rlib/bitset", os.path.join(BUILD, "mir"), False, "rel")
+        src = open(os.path.join(_k.REPO, "rlib/bitset/src/bitset.rs")).read()
+        P = BitsetProgram(txt)
+        for N in ((1, 2, 3) if tier == "quick" else (1, 2, 3, 4)):
+            for r in check_render(P, N, src):
+                rec = {"name": "render " + r["name"], "engine": "mirsym", "status": "PASS", "ok": True, "queries": r.get("queries", 0), "time": r["time"], "solver_time": r["time"],
+                       "desc": "the text written by fmt has 64N characters and character i is '1' exactly when i is a member (all word contents)", "bounds": "N=%d" % N}
+                if only and only not in rec["name"]:
+                    continue
+                print("  [C12] %-6s %s %.1fs" % ("ok" if r["status"] == "PASS" else "VIOL", rec["name"], r["time"]), flush=True)
+                if r["status"] != "PASS":
+                    rec.update(status="FAIL", ok=False)
+                    w = r.get("witness")
+                    if not w:
+                        out["inconclusive"].append({"obligation": rec["name"], "reason": "model-level failure without a witness: " + r.get("detail", "")})
+                    else:
+                        nat, rc = native(N, w["words"])
+                        got = nat.get(w["which"].lower())
+                        want = truth(N, w["words"])
+                        text = "N=%d words=%s: native %s text %r; set-theoretic text %r" % (N, ["%#x" % x for x in w["words"]], w["which"], got, want)
+                        if rc != 0 or got != want:
+                            rdir = os.path.join(VERIF, "replays", "C12"); os.makedirs(rdir, exist_ok=True)
+                            path = os.path.join(rdir, "render_%s_N%d.json" % (w["which"], N))
+                            json.dump({"property": "C12", "N": N, "words": w["words"], "which": w["which"], "native": got, "expected": want}, open(path, "w"), indent=1)
+                            print("  [C12] " + text[:300], flush=True)
+                            out["violations"].append("VIOLATION property=C12 replay=%s" % os.path.relpath(path, VERIF))
+                        else:
+                            out["inconclusive"].append({"obligation": rec["name"], "reason": "model-level counterexample not reproduced natively: " + text[:200]})
+                out["records"].append(rec)
+        META["functions_encoded_this_run"] = sorted(P.used_fns)
+        META["std_models_used"] = sorted(P.used_models)
+    except (core.Unsupported, core.PathLimit) as e:
+        out["inconclusive"].append({"obligation": "rendering (mirsym)", "reason": "mirsym: %s" % e})
+    return out
+
+
+def replay(path):
+    build_tools()
+    d = json.load(open(path))
+    nat, rc = native(d["N"], d["words"])
+    got, want = nat.get(d["which"].lower()), truth(d["N"], d["words"])
+    print(got, want)
+    bad = rc != 0 or got != want
+    print("REPRODUCED" if bad else "not reproduced")
+    return 1 if bad else 0
